@@ -240,3 +240,19 @@ Example C06_ex_object_delete_pick :
   /\ object_pick_w (enc (VArr [ex_one])) [ex_k 98] [9] = Err EInvalidObject.
 Proof. repeat split; vm_compute; reflexivity. Qed.
 (* ---- END edit2 ---- *)
+
+(* ---- the recursion fuel of strip_nulls / delete_by_keypath (EditWalk2.v: strip_item over nested items, del_item over
+   the shared key-path queue) is never the reason for an answer, on ANY buffer and any prior buffer content
+   (ExtraFuel06.v).  For delete_by_keypath the measure is the key path: a descent returns a strictly shorter one, also
+   on corrupt objects with duplicate member names where the walker descends more than once. *)
+From JB Require Import EditWalk2 ExtraFuel06.
+Theorem C06_fuel_never_exhausted :
+  (forall bs buf, strip_nulls_w bs buf <> Err EFuel) /\
+  (forall bs ks buf, delete_by_keypath_w bs ks buf <> Err EFuel) /\
+  (forall fuel item, (length item < fuel)%nat -> strip_item fuel item <> Err EFuel) /\
+  (forall fuel item ks, (length ks < fuel)%nat -> del_item fuel item ks <> Err EFuel).
+Proof.
+  split; [exact strip_nulls_w_not_fuel|]. split; [exact delete_by_keypath_w_not_fuel|].
+  split; [exact strip_item_fuel|exact del_item_fuel].
+Qed.
+Print Assumptions C06_fuel_never_exhausted.
